@@ -40,7 +40,9 @@ def env_for(r: str) -> dict:
     return e
 
 
-def vet(src: str, sid: str) -> int:
+def vet(src: str, sid: str, preserving: bool = False) -> int:
+    """preserving=True: a behaviour-preserving refactor (suite passes, its own property test exits 0 with and without the patch);
+    the checks are expected to stay quiet on it."""
     patch = os.path.join(src, "patch.diff")
     demo = os.path.join(src, "demo.py")
     d = scratch(patch)
@@ -55,7 +57,7 @@ def vet(src: str, sid: str) -> int:
     finally:
         drop(d)
     print(f"{sid}: suite: {tail!r}; demo with patch exit {p1.returncode}; without exit {p0.returncode}")
-    if not (ok_suite and p1.returncode == 1 and p0.returncode == 0):
+    if not (ok_suite and p1.returncode == (0 if preserving else 1) and p0.returncode == 0):
         print(f"{sid}: REJECTED")
         print(p1.stdout[-500:], p1.stderr[-500:], p0.stdout[-300:], p0.stderr[-300:])
         return 1
@@ -78,6 +80,8 @@ def vet(src: str, sid: str) -> int:
         },
         "origin": "written by an independent sub-agent that saw only the property text and a scratch worktree",
     }
+    if preserving:
+        meta["kind"] = "property-preserving refactor: every check is expected to stay quiet (exit 0) on it"
     json.dump(meta, open(out + "/meta.json", "w"), indent=1)
     print(f"{sid}: stored")
     return 0
@@ -108,6 +112,8 @@ def main() -> int:
     a = sys.argv[1:]
     if a[0] == "vet":
         return vet(a[1], a[2])
+    if a[0] == "vetp":
+        return vet(a[1], a[2], preserving=True)
     if a[0] == "run":
         extra = []
         if "--" in a:
